@@ -6,6 +6,10 @@ props = [json.loads(l) for l in open(os.path.join(V, "properties.jsonl"))]
 SEQ_NOTE = ("trusted: gcc/ASan/UBSan, the reference model in seq/, the harness stubs that replace only I/O callbacks and "
             "_exit; the code under test is the real translation unit rebuilt from /repo's working tree")
 CHECKS = {
+ "C09": dict(engine="SEQ", category="exploration", design_ref="4/C09",
+             technique="depth-first enumeration of the full tree of scripted SMTP server behaviours (reply classes/forms, garbage, disconnect, stall at every phase, 1-3 recipients, read-split/ahead-of-time/write-failure variants) through the real smtp()/smtpcode()/blast(), chained into the real qmail-rspawn report(); report() alone on every (status, output<=6/7 bytes)",
+             text="Every server script of the bounded tree is executed against the real client code and compared with a reference verdict function, so 'never K unless recipient and message were accepted' is decided for all scripts in the bound rather than for samples; the spawner's folding routine is covered over its whole small input space.",
+             note=SEQ_NOTE + "; the spawner process itself (pipe/SIGCHLD ordering in spawn.c) is outside this harness"),
  "C15": dict(engine="SEQ", category="exploration", design_ref="4/C15",
              technique="exhaustive evaluation of the real squareroot() for all 2^32 ages, nextretry() on a dense grid, and DFS over every insert/delmin sequence (depth<=8 quick, <=10 thorough) on the real prioq.c against a multiset reference",
              text="The arithmetic facts are decided for the complete 32-bit domain; the heap is explored over all operation sequences up to the depth, which includes every heap shape of up to depth elements; the daemon-level schedule under a virtual clock is the VK part (added when that engine serves this property).",
